@@ -10,6 +10,29 @@ class InputMutated(Exception):
     data - nesting, NFFT independence, class vs function - for the caller's next call)."""
 
 
+def np_int(v, idx):
+    """an integer argument as a python int or, every other call, as a numpy integer scalar (what np.arange, len() of
+    shapes and integer arithmetic on arrays hand out); the call sites where this is used accept both on the unchanged tree"""
+    return [int(v), np.int64(v), int(v), np.int32(v)][idx % 4]
+
+
+class ResultMutated(Exception):
+    """A result returned by an EARLIER call changed when the function was called again: the function hands out
+    its own work buffers (every property relating two results of the same function - nesting, scaling, NFFT
+    independence - is about values the caller still holds)."""
+
+
+_EARLIER = {}       # function name -> list of (arrays of an earlier result, their snapshots)
+
+
+def _arrays_of(res):
+    if isinstance(res, np.ndarray):
+        return [res]
+    if isinstance(res, (tuple, list)):
+        return [r for r in res if isinstance(r, np.ndarray)]
+    return []
+
+
 def call_guard(f, *a, **kw):
     """-> (True, result) or (False, exception).  Catches every exception of the callee
     (assertions included) - what the exception *means* is decided by the caller.
@@ -25,6 +48,19 @@ def call_guard(f, *a, **kw):
     for key, v, before in snaps:
         if v.shape != before.shape or not np.array_equal(v, before, equal_nan=True):
             return False, InputMutated('%s modified its argument %r in place' % (getattr(f, '__name__', 'callee'), key))
+    # results of the two previous calls of the same function must still hold what they held
+    name = getattr(f, '__name__', None)
+    if name and name != '<lambda>':
+        hist = _EARLIER.setdefault(name, [])
+        for arrs, copies in hist:
+            for arr, cp in zip(arrs, copies):
+                if arr.shape != cp.shape or not np.array_equal(arr, cp, equal_nan=True):
+                    hist[:] = []
+                    return False, ResultMutated('a result returned by an earlier call of %s changed during a later call' % name)
+        mine = _arrays_of(res)
+        if mine:
+            hist.append((mine, [m.copy() for m in mine]))
+            del hist[:-2]
     return True, res
 
 
@@ -99,9 +135,29 @@ def entry_variants(values, cplx, idx=0, full=False):
                      ('int32', base.astype(np.int32), TOL),
                      ('int16', base.astype(np.int16), TOL)]
         allv += [('float32', base.astype(np.float32), 2e-5)]
+    # the same samples as a non-contiguous view (every other element of a longer buffer whose other half is garbage):
+    # a column of a 2-D record, x[::2], z.real are all views of this kind
+    big = np.empty(2 * len(base), dtype=base.dtype)
+    big[0::2] = base
+    big[1::2] = 77 - base[::-1] * 3
+    allv.append(('strided-view', big[0::2], TOL))
     if full or len(allv) <= 2:
         return allv
     return [allv[0], allv[1 + idx % (len(allv) - 1)]]
+
+
+def fresh(x):
+    """a new argument object holding the same samples with the same memory layout (a copy of a strided view is a new
+    strided view: `.copy()` would make it contiguous)"""
+    if isinstance(x, list):
+        return list(x)
+    x = np.asarray(x)
+    if x.ndim == 1 and x.size and not x.flags['C_CONTIGUOUS']:
+        big = np.empty(2 * len(x), dtype=x.dtype)
+        big[0::2] = x
+        big[1::2] = 31
+        return big[0::2]
+    return x.copy()
 
 
 def live_object_dev(make, changes, outputs=('psd', 'ar', 'reflection', 'rho', 'ma')):
